@@ -100,6 +100,12 @@ class RealEnv:
             v = float(seeded_fraction(self.seed, name, 0))
         if kind == 'npfloat':
             return self.np.float64(v)
+        if kind == 'npfloat32':
+            return self.np.float32(v)
+        if kind == 'npint':
+            if self.given is None:
+                v = int(seeded_fraction(self.seed, name, 0) * 8)
+            return self.np.int64(int(round(v)))
         if kind == 'tensor0':
             return self.tn.tensor(v, dtype=self.dt(dtype))
         if kind == 'tensor1':
